@@ -5,7 +5,7 @@
 set -u
 PROP=$1; K=$2; PKG=$3; shift 3
 CHECKS=${*:-$PROP}
-SRC=/tmp/seed/$PROP.out
+SRC=${SEEDSRC:-/tmp/seed}/$PROP.out
 . /verif/goenv.sh
 WT=/tmp/seedverify-$PROP-$K
 rm -rf "$WT"; git -C /repo worktree prune
